@@ -173,7 +173,7 @@ def r12_2(ctx, m):
     ev = emits[0].value
     src = ev
     if isinstance(ev, ast.Name):
-        d = sorted([s for s in walk_own(wf.node) if isinstance(s, ast.Assign) and norm(s.targets[0]) == ev.id and s.lineno < emits[0].lineno], key=lambda s: s.lineno)
+        d = sorted([s for s in walk_own(wf.node) if isinstance(s, ast.Assign) and norm(s.targets[0]) == ev.id and wf.before(s, emits[0])], key=lambda s: wf.pos(s))
         src = d[-1].value if d else ev
     str_src = None
     built_in_loop = False
